@@ -129,7 +129,7 @@ class Ctx:
 class LaserMachine(Machine):
     pid = "C18"
     title = "Laser profiles integrate to the pulse energy and track their parameters"
-    quick_runs = 3000
+    quick_runs = 10000
     thorough_runs = 400000
     components_real = ["cherab.core.model.laser profiles and spectra (compiled)", "cherab.core.laser.Laser node, LaserProfile, "
                        "LaserSpectrum", "cherab.core.utility.Notifier", "raysect primitives and scene graph"]
